@@ -151,3 +151,42 @@ func TwoSpreadsOp(r *core.Rng, s *Schema, tag string) []*Def {
 	}
 	return nil
 }
+
+// AliasTwinDefs: one response key carried twice in one Go struct -- by the selection itself and
+// by a spread fragment, or by two spread fragments -- where one carrier renames its Go field with
+// the documented `alias` option (same JSON key, different Go names).
+func AliasTwinDefs(r *core.Rng, s *Schema, tag string) []*Def {
+	for _, f := range s.FieldsOf("Query") {
+		td := s.Get(f.Type.Base())
+		if td == nil || td.Kind != "OBJECT" {
+			continue
+		}
+		req := false
+		for _, a := range f.Args {
+			if a.Type.NonNull && a.Default == "" {
+				req = true
+			}
+		}
+		var leaves []*FieldDef
+		for _, lf := range td.Fields {
+			if s.IsLeaf(lf.Type.Base()) && len(lf.Args) == 0 {
+				leaves = append(leaves, lf)
+			}
+		}
+		if req || len(leaves) < 2 {
+			continue
+		}
+		a, b := leaves[0], leaves[1]
+		fa := fmt.Sprintf("fragment Hz%sP on %s {\n  %s\n  %s\n}\n", tag, td.Name, a.Name, b.Name)
+		fb := fmt.Sprintf("fragment Hz%sQ on %s {\n  # @genqlient(alias: \"Hz%sRenamed\")\n  %s\n}\n", tag, td.Name, tag, a.Name)
+		var op string
+		if r.Chance(0.5) {
+			op = fmt.Sprintf("query Hz%sAl {\n  %s {\n    ...Hz%sQ\n    ...Hz%sP\n  }\n}\n", tag, f.Name, tag, tag)
+		} else {
+			op = fmt.Sprintf("query Hz%sAl {\n  %s {\n    # @genqlient(alias: \"Hz%sOwn\")\n    %s\n    ...Hz%sP\n    ...Hz%sQ\n  }\n}\n", tag, f.Name, tag, a.Name, tag, tag)
+		}
+		return []*Def{{Name: "Hz" + tag + "P", Kind: "fragment", Text: fa}, {Name: "Hz" + tag + "Q", Kind: "fragment", Text: fb},
+			{Name: "Hz" + tag + "Al", Kind: "query", Text: op}}
+	}
+	return nil
+}
